@@ -1,1 +1,2 @@
 import ThriftVerif.Props.C17
+#print axioms Props.C17.generated_cfg_is_std
